@@ -151,7 +151,8 @@ def cases(draw):
                    'stop_timeout': draw(st.sampled_from([0.5, 3, 3])),
                    'regular': draw(st.booleans()),
                    'initdef': draw(st.sampled_from([None, 0, 0])),
-                   'saved': draw(st.sampled_from([None, None, 'saved'])),
+                   # persistent with a saved state / persistent in its first run (nothing saved yet)
+                   'saved': draw(st.sampled_from([None, None, 'saved', 'absent'])),
                    'fault': draw(st.sampled_from([None] * 8 + PHASES[:9]))}
             if cfg['fault'] in ('init_async',) and not has_ia:
                 cfg['ia_delay'] = 1
@@ -172,6 +173,7 @@ def cases(draw):
     case = {'blocks': blocks, 'lib': lib,
             'oa_mode': draw(st.sampled_from(['c', 'w', 's'])), 'oa_stop_data': draw(st.booleans()),
             'calc_fault': draw(st.integers(0, 2)) == 0,
+            'lib_persistent': draw(st.booleans()),
             'cause': draw(st.sampled_from(CAUSES)),
             'when': draw(st.sampled_from([0, 0.5, 1.5, 4, 10])),
             'second': draw(st.sampled_from([None, None, 'abort', 'shutdown', 'sigterm'])),
@@ -247,7 +249,7 @@ def execute(case):
                     blk.init_timeout = 0.0
                 if cfg['sa_delay'] is None:
                     blk.stop_timeout = 0.0
-                if cfg['saved'] is not None:
+                if cfg['saved'] == 'saved':
                     storage[blk.key] = cfg['saved']
             else:
                 blk = PBM(f'b{i}', cfg=cfg, stop_timeout=3)
@@ -255,7 +257,8 @@ def execute(case):
         lib = {}
         for kind in case['lib']:
             if kind == 'timer':
-                lib[kind] = edzed.Timer('tm', t_on=1.5, t_off=2.5, on_output=edzed.Event(sink, 'x'))
+                lib[kind] = edzed.Timer('tm', t_on=1.5, t_off=2.5, on_output=edzed.Event(sink, 'x'),
+                                        persistent=bool(case.get('lib_persistent')))
             elif kind == 'repeat':
                 lib[kind] = edzed.Repeat('rp', dest=sink, etype='x', interval=0.7)
             elif kind == 'valuepoll':
@@ -274,7 +277,8 @@ def execute(case):
             elif kind == 'timedate':
                 lib[kind] = edzed.TimeDate('td', times='1:00-2:00')
             elif kind == 'inputexp':
-                lib[kind] = edzed.InputExp('ie', duration=3, initdef=1)
+                lib[kind] = edzed.InputExp('ie', duration=3, initdef=1,
+                                           persistent=bool(case.get('lib_persistent')))
             elif kind == 'calc':
                 fail = case['calc_fault']
 
